@@ -728,10 +728,19 @@ def flat_text(t):
 
 def seq_concat(t):
     """Pieces of a list concatenation in any spelling: a + [x] + b and
-    [*a, x, *b] both give [('splice', a), ('item', x), ('splice', b)]."""
-    return [("splice", x[1]) if k == "item" and x[0] == "star" else (k, x)
-            for k, x in concat_parts(t)]
-
+    [*a, x, *b] both give [('splice', a), ('item', x), ('splice', b)];
+    splices that are themselves concatenations / displays are flattened,
+    empty displays vanish."""
+    out = []
+    for k, x in concat_parts(t):
+        if k == "item" and x[0] == "star":
+            k, x = "splice", x[1]
+        if k == "splice" and (x[0] in ("list", "tuple") or (
+                x[0] == "bin" and x[1] == "+")):
+            out.extend(seq_concat(x))
+        else:
+            out.append((k, x))
+    return out
 
 def merge_fstr(t):
     """f-strings with adjacent constant pieces merged (f"*.{'x'}." ->
@@ -777,3 +786,31 @@ def strip_materialise(t):
             return x[2][0]
         return x
     return map_term(t, f)
+
+
+_FLIP = {"in": "not in", "not in": "in", "is": "is not", "is not": "is",
+         "==": "!=", "!=": "==", "<": ">=", ">=": "<", ">": "<=", "<=": ">"}
+
+
+def norm_logic(t):
+    """not (a OP b) -> a OP' b ;  filter(lambda p: C, X) -> (x for x in X if
+    C[x]) ; used to compare differently spelled selections"""
+    def f(x):
+        if x[0] == "un" and x[1] == "not" and isinstance(x[2], tuple) and \
+                x[2] and x[2][0] == "cmp" and x[2][1] in _FLIP:
+            return ("cmp", _FLIP[x[2][1]], x[2][2], x[2][3])
+        if x[0] == "call" and x[1] == "builtins.filter" and \
+                len(x[2]) == 2 and x[2][0][0] == "lambda" and \
+                len(x[2][0][1]) == 1:
+            p_, body, src = x[2][0][1][0], x[2][0][2], x[2][1]
+            el = ("elem", src)
+            cond = map_term(body, lambda z: el if z == ("lparam", p_) else z)
+            cond = f(cond) if cond[0] == "un" else cond
+            return ("comp", "gen", el, (((p_,), src, (cond,)),))
+        return x
+    return map_term(t, f)
+
+
+def normalise(t):
+    """The standard normal form used before structural comparison."""
+    return simp(items_as_subs(expand_const_comp(fuse_comps(norm_logic(t)))))
